@@ -44,6 +44,7 @@ func ruleRenderSkip(c *Ctx, r *Report) {
 			continue
 		}
 		info := f.Info()
+		emit := leafEmitters(f)
 		n := 0
 		ast.Inspect(f.Decl.Body, func(x ast.Node) bool {
 			bs, ok := x.(*ast.BranchStmt)
@@ -63,7 +64,7 @@ func ruleRenderSkip(c *Ctx, r *Report) {
 					if fn := FullName(Callee(info, call)); strings.HasSuffix(fn, "errlist.List.Add") || strings.HasSuffix(fn, "errlist.Error.Add") {
 						recorded = true
 					}
-					if id, ok := call.Fun.(*ast.Ident); ok && id.Name == "addLeaf" {
+					if id, ok := call.Fun.(*ast.Ident); ok && emit[info.ObjectOf(id)] {
 						emitted = true
 					}
 					return true
@@ -102,6 +103,53 @@ func ruleRenderSkip(c *Ctx, r *Report) {
 			return true
 		})
 	}
+}
+
+// leafEmitters: the local function variables of f through which leaves are recorded: `addLeaf`, and
+// every local closure whose body calls one of them (e.g. a helper that adds a value at all paths).
+func leafEmitters(f *FuncInfo) map[types.Object]bool {
+	info := f.Info()
+	set := map[types.Object]bool{}
+	ast.Inspect(f.Decl.Body, func(n ast.Node) bool {
+		if id, ok := n.(*ast.Ident); ok && id.Name == "addLeaf" {
+			if o := info.ObjectOf(id); o != nil {
+				set[o] = true
+			}
+		}
+		return true
+	})
+	for changed := true; changed; {
+		changed = false
+		ast.Inspect(f.Decl.Body, func(n ast.Node) bool {
+			as, ok := n.(*ast.AssignStmt)
+			if !ok || len(as.Lhs) != 1 || len(as.Rhs) != 1 {
+				return true
+			}
+			fl, ok := as.Rhs[0].(*ast.FuncLit)
+			if !ok {
+				return true
+			}
+			o := ObjOf(info, as.Lhs[0])
+			if o == nil || set[o] {
+				return true
+			}
+			calls := false
+			ast.Inspect(fl.Body, func(m ast.Node) bool {
+				if call, ok := m.(*ast.CallExpr); ok {
+					if id, ok := call.Fun.(*ast.Ident); ok && set[info.ObjectOf(id)] {
+						calls = true
+					}
+				}
+				return true
+			})
+			if calls {
+				set[o] = true
+				changed = true
+			}
+			return true
+		})
+	}
+	return set
 }
 
 // boundFromCall: obj is defined by an assignment whose right-hand side is a call to fn.
@@ -519,12 +567,106 @@ func ruleCacheKey(c *Ctx, r *Report) {
 		}
 		return true
 	})
+	// helpers that receive the map and the key as parameters (an extracted lookup/store function).
+	type hsite struct {
+		at       ast.Expr
+		have     depSet
+		store    bool
+		describe string
+	}
+	var hsites []hsite
+	ast.Inspect(f.Decl.Body, func(n ast.Node) bool {
+		call, ok := n.(*ast.CallExpr)
+		if !ok {
+			return true
+		}
+		h := c.funcOfCallee(Callee(info, call))
+		if h == nil || h == f {
+			return true
+		}
+		hinfo := h.Info()
+		hp := paramObjs(h)
+		idx := func(o types.Object) int {
+			for i, p := range hp {
+				if p == o {
+					return i
+				}
+			}
+			return -1
+		}
+		ast.Inspect(h.Decl.Body, func(m ast.Node) bool {
+			ix, ok := m.(*ast.IndexExpr)
+			if !ok {
+				return true
+			}
+			tv, ok := hinfo.Types[ix.X]
+			if !ok || tv.Type == nil {
+				return true
+			}
+			if _, isMap := tv.Type.Underlying().(*types.Map); !isMap {
+				return true
+			}
+			mi, ki := idx(ObjOf(hinfo, ix.X)), idx(ObjOf(hinfo, ix.Index))
+			if mi < 0 || ki < 0 || mi >= len(call.Args) || ki >= len(call.Args) {
+				return true
+			}
+			have := exprDeps(call.Args[mi])
+			for d := range exprDeps(call.Args[ki]) {
+				have[d] = true
+			}
+			st := false
+			ast.Inspect(h.Decl.Body, func(q ast.Node) bool {
+				if as, ok := q.(*ast.AssignStmt); ok {
+					for i, l := range as.Lhs {
+						if l == ast.Expr(ix) && len(as.Rhs) == len(as.Lhs) {
+							st = true
+							if vi := idx(ObjOf(hinfo, as.Rhs[i])); vi >= 0 && vi < len(call.Args) {
+								for d := range exprDeps(call.Args[vi]) {
+									need[d] = true
+								}
+								for d := range ctrlDeps(call) {
+									need[d] = true
+								}
+							}
+						}
+					}
+				}
+				return true
+			})
+			hsites = append(hsites, hsite{call, have, st, types.ExprString(call) + " → " + types.ExprString(ix)})
+			return true
+		})
+		return true
+	})
 	for o := range need {
 		if recv[o] {
 			delete(need, o)
 		}
 	}
 	nStore, nLookup := 0, 0
+	for _, hs := range hsites {
+		var missing []string
+		for d := range need {
+			if !hs.have[d] {
+				missing = append(missing, d.Name())
+			}
+		}
+		sort.Strings(missing)
+		kind := "lookup"
+		if hs.store {
+			kind = "store"
+			nStore++
+		} else {
+			nLookup++
+		}
+		idx := nLookup
+		if hs.store {
+			idx = nStore
+		}
+		r.Check(len(missing) == 0, fmt.Sprintf("ytypes.regexpCache.compilePattern:%s#%d", kind, idx), c.Pos(hs.at.Pos()),
+			"slot "+hs.describe+" depends on "+depNames(hs.have)+" ⊇ value dependencies "+depNames(need),
+			fmt.Sprintf("the cached regexp depends on %s but the cache %s %s does not depend on %s: a pattern compiled for one flavour is returned for the other", depNames(need), kind, hs.describe, strings.Join(missing, ",")))
+	}
 	for _, s := range sites {
 		have := exprDeps(s.ix.X)
 		for d := range exprDeps(s.ix.Index) {
@@ -886,6 +1028,7 @@ func ruleEmptyLeafList(c *Ctx, r *Report) {
 	// writer 1: findUpdatedLeaves, Slice arm.
 	if f := c.MustFunc(r, "ygot", "findUpdatedLeaves"); f != nil {
 		info := f.Info()
+		emit := leafEmitters(f)
 		n := 0
 		ast.Inspect(f.Decl.Body, func(x ast.Node) bool {
 			call, ok := x.(*ast.CallExpr)
@@ -893,7 +1036,7 @@ func ruleEmptyLeafList(c *Ctx, r *Report) {
 				return true
 			}
 			id, ok := call.Fun.(*ast.Ident)
-			if !ok || id.Name != "addLeaf" {
+			if !ok || !emit[info.ObjectOf(id)] {
 				return true
 			}
 			inSlice := false
@@ -1055,7 +1198,7 @@ func ruleAnchorGroup(c *Ctx, r *Report) {
 				first = true
 			case ft.Pos && s == "ch != '^'", !ft.Pos && s == "ch == '^'":
 				notCaret = true
-			case ft.Pos && s == "ch == '^'", !ft.Pos && s == "ch != '^'":
+			case ft.Pos && s == "ch == '^'", !ft.Pos && s == "ch != '^'", ft.Pos && s == `strings.HasPrefix(pattern, "^")`:
 			case ft.Pos && mentionsBar(ft.Cond):
 				bar = true
 			default:
@@ -1216,4 +1359,231 @@ func rulePrefixPair(c *Ctx, r *Report) {
 		})
 		r.Check(okPath, "ygot.addToNotification:Update.Path=stripped.ToProto()", c.Pos(f.Decl.Pos()), "the update path is the stripped path", "the update's path is not the prefix-stripped leaf path: prefix + path no longer names the leaf")
 	}
+}
+
+// ---- R-MERGE-UNSET (C05) -------------------------------------------------------------------
+
+// ruleMergeUnset: in copyStruct a by-value field (enum, empty, …) is copied from the source only
+// when the source sets it; the reference kinds are delegated to helpers that return early on nil.
+func ruleMergeUnset(c *Ctx, r *Report) {
+	r.Rule("R-MERGE-UNSET", "copyStruct writes the source's by-value field into the destination only under a test that the source value is set (non-zero); the reference-kind helpers return before any write when the source is nil: an unset source field never replaces a value set in the destination (union of leaves, commutativity)", 6)
+	f := c.MustFunc(r, "ygot", "copyStruct")
+	if f == nil {
+		return
+	}
+	info := f.Info()
+	ps := paramObjs(f)
+	if len(ps) < 2 {
+		r.Und("ygot.copyStruct:signature", c.Pos(f.Decl.Pos()), "expected (dst, src, …)")
+		return
+	}
+	// src field variable(s): defined as srcVal.Field(i)
+	isSrcField := func(e ast.Expr) bool {
+		id, ok := ast.Unparen(e).(*ast.Ident)
+		if !ok {
+			return false
+		}
+		d := singleDef(f, info.ObjectOf(id))
+		if d == nil {
+			return false
+		}
+		call, ok := ast.Unparen(d).(*ast.CallExpr)
+		if !ok || FullName(Callee(info, call)) != "reflect.Value.Field" {
+			return false
+		}
+		sel := call.Fun.(*ast.SelectorExpr)
+		return ObjOf(info, sel.X) == ps[1]
+	}
+	nonZeroFact := func(n ast.Node) (bool, string) {
+		for _, ft := range c.FactsAt(f, n, false) {
+			conds := []ast.Expr{ft.Cond}
+			if ft.Kind == "switch" {
+				conds = ft.Vals
+			} else if ft.Kind != "cond" {
+				continue
+			}
+			for _, cd := range conds {
+				var cs []ast.Expr
+				if ft.Kind == "cond" && !ft.Pos {
+					// a negated fact only helps when it is `!(x.IsZero())`, handled below.
+					if call, ok := ast.Unparen(cd).(*ast.CallExpr); ok && FullName(Callee(info, call)) == "reflect.Value.IsZero" && isSrcField(call.Fun.(*ast.SelectorExpr).X) {
+						return true, "!" + types.ExprString(cd)
+					}
+					continue
+				}
+				flattenAnd(cd, &cs)
+				for _, e := range cs {
+					be, ok := ast.Unparen(e).(*ast.BinaryExpr)
+					if !ok || be.Op != token.NEQ {
+						continue
+					}
+					if v, ok := ConstOf(info, be.Y); !ok || v != "0" {
+						continue
+					}
+					// vSrc != 0 where vSrc := srcField.Int()
+					x := ast.Unparen(be.X)
+					if id, ok := x.(*ast.Ident); ok {
+						if d := singleDefMulti(f, info.ObjectOf(id)); d != nil {
+							x = ast.Unparen(d)
+						}
+					}
+					if call, ok := x.(*ast.CallExpr); ok {
+						if sel, ok := call.Fun.(*ast.SelectorExpr); ok && isSrcField(sel.X) {
+							switch FullName(Callee(info, call)) {
+							case "reflect.Value.Int", "reflect.Value.Uint", "reflect.Value.Len":
+								return true, types.ExprString(e)
+							}
+						}
+					}
+				}
+			}
+		}
+		return false, ""
+	}
+	n := 0
+	ast.Inspect(f.Decl.Body, func(x ast.Node) bool {
+		call, ok := x.(*ast.CallExpr)
+		if !ok || FullName(Callee(info, call)) != "reflect.Value.Set" || len(call.Args) != 1 || !isSrcField(call.Args[0]) {
+			return true
+		}
+		n++
+		ok2, why := nonZeroFact(call)
+		r.Check(ok2, fmt.Sprintf("ygot.copyStruct:by-value-write#%d", n), c.Pos(call.Pos()), "only when the source sets the field: "+why,
+			"copyStruct copies a by-value source field into the destination without testing that the source sets it: a zero (unset) field of b replaces the value set in a, e.g. a leaf of type empty set only in a is lost by MergeStructs(a, b) but kept by MergeStructs(b, a)")
+		return true
+	})
+	if n == 0 {
+		r.Und("ygot.copyStruct:by-value-write", c.Pos(f.Decl.Pos()), "no direct dstField.Set(srcField) found: by-value kinds are handled elsewhere, re-confirm the rule")
+	}
+	// reference-kind helpers: first statement(s) return when the source is nil.
+	for _, h := range []struct{ name, what string }{{"copyPtrField", "IsNilOrInvalidValue(srcField)"}, {"copyInterfaceField", "IsNilOrInvalidValue(srcField)"}, {"copySliceField", "nil or empty source"}} {
+		g := c.MustFunc(r, "ygot", h.name)
+		if g == nil {
+			continue
+		}
+		ginfo := g.Info()
+		gps := paramObjs(g)
+		early := false
+		var firstWrite token.Pos = token.Pos(1 << 40)
+		ast.Inspect(g.Decl.Body, func(x ast.Node) bool {
+			if call, ok := x.(*ast.CallExpr); ok {
+				switch FullName(Callee(ginfo, call)) {
+				case "reflect.Value.Set", "reflect.Value.SetMapIndex":
+					if call.Pos() < firstWrite {
+						firstWrite = call.Pos()
+					}
+				}
+			}
+			return true
+		})
+		for _, s := range g.Decl.Body.List {
+			is, ok := s.(*ast.IfStmt)
+			if !ok || is.Pos() > firstWrite {
+				continue
+			}
+			mentionsSrc := false
+			ast.Inspect(is.Cond, func(y ast.Node) bool {
+				if id, ok := y.(*ast.Ident); ok && len(gps) >= 2 && ginfo.ObjectOf(id) == gps[1] {
+					mentionsSrc = true
+				}
+				return true
+			})
+			if !mentionsSrc || len(is.Body.List) == 0 {
+				continue
+			}
+			if rs, ok := is.Body.List[len(is.Body.List)-1].(*ast.ReturnStmt); ok && len(rs.Results) == 1 && ginfo.Types[rs.Results[0]].IsNil() {
+				s := types.ExprString(is.Cond)
+				if strings.Contains(s, "IsNilOrInvalidValue") || strings.Contains(s, "IsNil()") || strings.Contains(s, "Len() == 0") {
+					early = true
+				}
+			}
+		}
+		r.Check(early, "ygot."+h.name+":unset-source-returns-early", c.Pos(g.Decl.Pos()), "returns nil before any write when the source is unset ("+h.what+")",
+			h.name+" no longer returns before its first write when the source field is nil/empty: an unset field of b can replace a value set in a")
+	}
+	// copyMapField adds entries key by key (SetMapIndex); the only whole-field write replaces an
+	// empty destination.
+	if g := c.MustFunc(r, "ygot", "copyMapField"); g != nil {
+		ginfo := g.Info()
+		gps := paramObjs(g)
+		n, ok := 0, true
+		ast.Inspect(g.Decl.Body, func(x ast.Node) bool {
+			call, isC := x.(*ast.CallExpr)
+			if !isC || FullName(Callee(ginfo, call)) != "reflect.Value.Set" || len(gps) < 1 || ObjOf(ginfo, call.Fun.(*ast.SelectorExpr).X) != gps[0] {
+				return true
+			}
+			n++
+			guarded := false
+			for _, ft := range c.FactsAt(g, call, false) {
+				if ft.Kind == "cond" && ft.Pos && types.ExprString(ft.Cond) == gps[0].Name()+".Len() == 0" {
+					guarded = true
+				}
+			}
+			ok = ok && guarded
+			return true
+		})
+		r.Check(ok, "ygot.copyMapField:whole-field-write-only-into-empty-destination", c.Pos(g.Decl.Pos()), fmt.Sprintf("%d whole-field write(s), each under dstField.Len() == 0; entries are otherwise added key by key", n),
+			"copyMapField replaces the destination map as a whole although it may hold entries: list entries set only in a are lost")
+	}
+}
+
+// singleDefMulti: like singleDef, but also accepts `a, b := x.Int(), y.Int()` (parallel definitions).
+func singleDefMulti(f *FuncInfo, obj types.Object) ast.Expr {
+	return singleDef(f, obj)
+}
+
+// ---- canonical expression text (robustness to hoisting) ----------------------------------------
+
+// canonExprString prints e with every local variable that has exactly one definition, whose
+// right-hand side is a call-free access path (identifiers, selectors, index, dereference), replaced
+// by that definition — so hoisting `x := a.b.c` does not change the text a construct is keyed by.
+func canonExprString(f *FuncInfo, e ast.Expr) string {
+	info := f.Info()
+	var pr func(e ast.Expr, depth int) string
+	purePath := func(e ast.Expr) bool {
+		ok := true
+		ast.Inspect(e, func(n ast.Node) bool {
+			switch n.(type) {
+			case *ast.CallExpr, *ast.FuncLit, *ast.CompositeLit, *ast.BinaryExpr, *ast.TypeAssertExpr:
+				ok = false
+			}
+			return ok
+		})
+		return ok
+	}
+	pr = func(e ast.Expr, depth int) string {
+		switch x := ast.Unparen(e).(type) {
+		case *ast.Ident:
+			if depth < 5 {
+				if obj, isVar := info.ObjectOf(x).(*types.Var); isVar && !obj.IsField() && obj.Parent() != nil && obj.Parent() != obj.Pkg().Scope() {
+					if d := singleDef(f, obj); d != nil && purePath(d) {
+						if _, isID := ast.Unparen(d).(*ast.Ident); !isID || true {
+							return pr(d, depth+1)
+						}
+					}
+				}
+			}
+			return x.Name
+		case *ast.SelectorExpr:
+			return pr(x.X, depth) + "." + x.Sel.Name
+		case *ast.IndexExpr:
+			return pr(x.X, depth) + "[" + pr(x.Index, depth) + "]"
+		case *ast.StarExpr:
+			return "*" + pr(x.X, depth)
+		}
+		return types.ExprString(e)
+	}
+	s := pr(e, 0)
+	if len(s) > 60 {
+		s = s[:60]
+	}
+	return s
+}
+
+// funcOfCallee: the source declaration of a module function (nil for dependencies and builtins).
+func (c *Ctx) funcOfCallee(fn *types.Func) *FuncInfo {
+	if fn == nil || fn.Pkg() == nil || !strings.HasPrefix(fn.Pkg().Path(), modPath) {
+		return nil
+	}
+	return c.funcIndex()[fn.Origin()]
 }
